@@ -548,3 +548,139 @@ Qed.
 Lemma batch_once cfg sc b :
   NoDup (map d_id b) -> once_ok (fresh b) (lineage (fuel_for cfg sc) cfg sc (fresh b)).
 Proof. intros Nd. apply (lineage_once cfg sc _ (fresh b) (max_retries cfg)); simpl; auto. unfold fuel_for. lia. Qed.
+
+(* ================= every script: WHICH answer, with whole-request errors ================= *)
+Definition bfate_ok (cfg : ecfg) (sc : script) (fuel : nat) (t : task) (tr : trace) : Prop :=
+  tr_fuel_out tr = false
+  /\ (forall d, In d (t_docs t) ->
+        answers_of (d_id d) (tr_answers tr) = [fst (bfate fuel (max_retries cfg) sc (t_docs t) (t_n t) (t_send t) d)]
+        /\ (count_calls (d_id d) (tr_calls tr) + t_send t
+            = snd (bfate fuel (max_retries cfg) sc (t_docs t) (t_n t) (t_send t) d))%nat)
+  /\ (forall id, ~ In id (map d_id (t_docs t)) ->
+        answers_of id (tr_answers tr) = [] /\ count_calls id (tr_calls tr) = 0%nat).
+
+Lemma bfate_S f maxr sc live n s d :
+  bfate (S f) maxr sc live n s d =
+  if existsb (fun d' => is_whole (outcome_at sc (d_id d') s)) live then bfate f maxr sc live n (S s) d
+  else
+    let next := filter (fun d' => is_retryable (outcome_at sc (d_id d') s)) live in
+    match outcome_at sc (d_id d) s with
+    | OOk | OWhole => (ASuccess, S s)
+    | OMapping => (AIndexErr (Z.of_nat s) 2, S s)
+    | ORetry => if (n =? maxr)%nat then (AIndexErr (Z.of_nat s) 1, S s) else bfate f maxr sc next (S n) (S s) d
+    | ONoErr => if (n =? maxr)%nat then (AIndexErr (-1) 3, S s) else bfate f maxr sc next (S n) (S s) d
+    end.
+Proof. reflexivity. Qed.
+
+Lemma existsb_map {A B} (p : B -> bool) (g : A -> B) l : existsb p (map g l) = existsb (fun x => p (g x)) l.
+Proof. induction l as [|x l IH]; simpl; [reflexivity|]. now rewrite IH. Qed.
+
+Lemma lineage_bfate cfg sc : forall fuel t rem,
+  (t_n t + rem = max_retries cfg)%nat -> (rem + (script_len sc - t_send t) < fuel)%nat ->
+  NoDup (map d_id (t_docs t)) -> bfate_ok cfg sc fuel t (lineage fuel cfg sc t).
+Proof.
+  induction fuel as [|f IH]; intros t rem Hn Hf Nd; [lia|].
+  rewrite lineage_S.
+  destruct (t_docs t) as [|d0 ds] eqn:Ed.
+  { unfold bfate_ok, handle, call_of; rewrite Ed; simpl; repeat split; intros; try contradiction; reflexivity. }
+  assert (Hne : t_docs t <> []) by (rewrite Ed; discriminate).
+  rewrite (handle_cases cfg sc t Hne). cbv zeta. unfold call_of. rewrite Ed. rewrite <- Ed. rewrite <- Ed in Nd.
+  set (g := fun d => outcome_at sc (d_id d) (t_send t)).
+  set (F := fun d1 : doc => item_answer cfg t d1 (outcome_at sc (d_id d1) (t_send t))).
+  set (P := fun d : doc => is_retryable (outcome_at sc (d_id d) (t_send t))).
+  assert (KF : keyed F) by exact (item_answer_keyed cfg t g).
+  unfold bfate_ok.
+  assert (EW : existsb (fun d' => is_whole (outcome_at sc (d_id d') (t_send t))) (t_docs t)
+               = existsb is_whole (map g (t_docs t))) by (now rewrite existsb_map).
+  destruct (existsb is_whole (map g (t_docs t))) eqn:Ew.
+  - (* the whole request failed *)
+    assert (Ewb := Ew). apply existsb_exists in Ewb as [o [Ho Ewb]]. apply in_map_iff in Ho as [dw [<- _]].
+    apply whole_bound in Ewb.
+    cbn [fst snd].
+    set (t' := {| t_docs := t_docs t; t_n := t_n t; t_send := S (t_send t) |}).
+    destruct (IH t' rem) as [Hfo [Hin Hout]]; simpl; try assumption; try lia.
+    unfold tr_app. cbn [tr_answers tr_calls tr_fuel_out app orb]. split; [assumption|]. split.
+    + intros d Hd. rewrite ?bfate_S, EW. destruct (Hin d Hd) as [A C]. cbn [t_docs t_n t_send t'] in A, C.
+      rewrite A. split; [reflexivity|]. rewrite count_calls_cons, (has_doc_in d (t_docs t) Hd). lia.
+    + intros id Hid. destruct (Hout id Hid) as [A C]. split; [assumption|].
+      rewrite count_calls_cons, (has_doc_out id (t_docs t) Hid), C. reflexivity.
+  - assert (Hnw : forall d, In d (t_docs t) -> is_whole (g d) = false).
+    { intros d Hd. destruct (is_whole (g d)) eqn:E; [|reflexivity].
+      assert (existsb is_whole (map g (t_docs t)) = true) by (apply existsb_exists; exists (g d); split; [now apply in_map|assumption]).
+      congruence. }
+    destruct (forallb is_ok (map g (t_docs t))) eqn:Eok.
+    + cbn [fst snd]. unfold tr_app, tr_empty. cbn [tr_answers tr_calls tr_fuel_out orb]. rewrite !app_nil_r.
+      assert (K : keyed (fun d => [(d_id d, ASuccess)])) by (intros d' x [<-|[]]; reflexivity).
+      split; [reflexivity|]. split.
+      * intros d Hd. rewrite map_as_flat_map.
+        rewrite (answers_of_flat_in (fun d => [(d_id d, ASuccess)]) (t_docs t) d K Nd Hd).
+        rewrite ?bfate_S, EW. cbv zeta.
+        assert (Eo : outcome_at sc (d_id d) (t_send t) = OOk).
+        { rewrite forallb_forall in Eok. specialize (Eok _ (in_map g _ _ Hd)). unfold g in Eok.
+          destruct (outcome_at sc (d_id d) (t_send t)); try discriminate; reflexivity. }
+        rewrite Eo. cbn [fst snd map]. split; [reflexivity|].
+        rewrite count_calls_single, (has_doc_in d (t_docs t) Hd). lia.
+      * intros id Hid. rewrite map_as_flat_map.
+        rewrite (answers_of_flat_out (fun d => [(d_id d, ASuccess)]) (t_docs t) id K Hid).
+        rewrite count_calls_single, (has_doc_out id (t_docs t) Hid). split; reflexivity.
+    + destruct (t_n t =? max_retries cfg)%nat eqn:En.
+      * cbn [fst snd]. unfold tr_app, tr_empty. cbn [tr_answers tr_calls tr_fuel_out orb]. rewrite !app_nil_r.
+        split; [reflexivity|]. split.
+        -- intros d Hd. rewrite (answers_of_flat_in F (t_docs t) d KF Nd Hd).
+           rewrite ?bfate_S, EW. cbv zeta. rewrite En.
+           rewrite count_calls_single, (has_doc_in d (t_docs t) Hd).
+           unfold F, item_answer. rewrite En. specialize (Hnw d Hd). unfold g in Hnw.
+           destruct (outcome_at sc (d_id d) (t_send t)); try discriminate; cbn [fst snd map]; split; try reflexivity; lia.
+        -- intros id Hid. rewrite (answers_of_flat_out F (t_docs t) id KF Hid).
+           rewrite count_calls_single, (has_doc_out id (t_docs t) Hid). split; reflexivity.
+      * assert (En' := En). apply Nat.eqb_neq in En'. destruct rem as [|rem']; [lia|].
+        cbn [fst snd].
+        set (t' := {| t_docs := filter P (t_docs t); t_n := S (t_n t); t_send := S (t_send t) |}).
+        assert (Nd' : NoDup (map d_id (t_docs t'))) by (apply NoDup_map_filter; assumption).
+        destruct (IH t' rem') as [Hfo [Hin Hout]]; simpl; try assumption; try lia.
+        unfold tr_app. cbn [tr_answers tr_calls tr_fuel_out orb]. split; [assumption|]. split.
+        -- intros d Hd. rewrite answers_of_app, (answers_of_flat_in F (t_docs t) d KF Nd Hd).
+           rewrite count_calls_cons, (has_doc_in d (t_docs t) Hd).
+           rewrite ?bfate_S, EW. cbv zeta. rewrite En. fold P.
+           specialize (Hnw d Hd). unfold g in Hnw.
+           destruct (P d) eqn:Er.
+           ++ assert (Hd' : In d (t_docs t')) by (apply filter_In; split; assumption).
+              destruct (Hin d Hd') as [A C]. cbn [t_docs t_n t_send t'] in A, C. rewrite A.
+              unfold F, item_answer. rewrite En. unfold P in Er.
+              destruct (outcome_at sc (d_id d) (t_send t)); try discriminate; cbn [map app]; split; try reflexivity; lia.
+           ++ assert (Hd' : ~ In (d_id d) (map d_id (t_docs t'))).
+              { intros H. apply in_map_iff in H as [y [E Hy]]. apply filter_In in Hy as [Hy Hr].
+                assert (y = d) by exact (NoDup_map_inj d_id (t_docs t) y d Nd Hy Hd E). subst y. congruence. }
+              destruct (Hout _ Hd') as [A C]. rewrite A, C. unfold F, item_answer. unfold P in Er.
+              destruct (outcome_at sc (d_id d) (t_send t)); try discriminate; cbn [fst snd map app]; split; try reflexivity; lia.
+        -- intros id Hid. rewrite answers_of_app, count_calls_cons, (has_doc_out id (t_docs t) Hid).
+           rewrite (answers_of_flat_out F (t_docs t) id KF Hid).
+           assert (Hid' : ~ In id (map d_id (t_docs t'))) by (intros H; apply Hid; eapply filter_ids_subset; exact H).
+           destruct (Hout _ Hid') as [A C]. rewrite A, C. split; reflexivity.
+Qed.
+
+Lemma batch_bfate cfg sc b :
+  NoDup (map d_id b) ->
+  bfate_ok cfg sc (fuel_for cfg sc) (fresh b) (lineage (fuel_for cfg sc) cfg sc (fresh b)).
+Proof. intros Nd. apply (lineage_bfate cfg sc _ (fresh b) (max_retries cfg)); simpl; auto. unfold fuel_for. lia. Qed.
+
+(* without whole-request errors the batch-level closed form is the per-document one *)
+Lemma bfate_is_fate sc : no_whole sc = true -> forall f rem live s d,
+  (rem < f)%nat -> bfate f (s + rem) sc live s s d = fate rem s (outcome_at sc (d_id d)).
+Proof.
+  intros Hnw. induction f as [|f IH]; intros rem live s d Hf; [lia|].
+  rewrite bfate_S, fate_unfold.
+  assert (E : existsb (fun d' => is_whole (outcome_at sc (d_id d') s)) live = false).
+  { destruct (existsb _ live) eqn:E; [|reflexivity]. apply existsb_exists in E as [x [_ E]].
+    now rewrite no_whole_outcome in E. }
+  rewrite E. cbv zeta.
+  destruct (outcome_at sc (d_id d) s); try reflexivity.
+  - destruct rem as [|r].
+    + rewrite Nat.add_0_r, Nat.eqb_refl. reflexivity.
+    + assert (En : (s =? s + S r)%nat = false) by (apply Nat.eqb_neq; lia). rewrite En.
+      replace (s + S r)%nat with (S s + r)%nat by lia. apply IH. lia.
+  - destruct rem as [|r].
+    + rewrite Nat.add_0_r, Nat.eqb_refl. reflexivity.
+    + assert (En : (s =? s + S r)%nat = false) by (apply Nat.eqb_neq; lia). rewrite En.
+      replace (s + S r)%nat with (S s + r)%nat by lia. apply IH. lia.
+Qed.
